@@ -7,6 +7,7 @@ import SIM.Driver.Basic
 import SIM.Driver.Codec
 import SIM.Driver.Registry
 import SIM.Driver.Retain
+import SIM.Driver.Json
 open SIM SIM.Driver
 
 def dispatch (stream : String) (toks : List String) : Verdict :=
@@ -17,6 +18,7 @@ def dispatch (stream : String) (toks : List String) : Verdict :=
   | "codec" => runP codec toks
   | "registry" => runP registry toks
   | "retain" => runP retain toks
+  | "json" => runP json toks
   | _ => .unmodelled ("unknown stream " ++ stream)
 
 partial def loop (h : IO.FS.Stream) (out : IO.FS.Stream) : IO Unit := do
